@@ -30,12 +30,17 @@ defjvp_argnum(
     anp.array_from_args,
     lambda argnum, g, ans, args, kwargs: untake(g, array_from_args_index(argnum, ans, args), vspace(ans)),
 )
-defjvp(
-    anp._array_from_scalar_or_array,
-    None,
-    None,
-    lambda g, ans, args, kwargs, _: anp._array_from_scalar_or_array(args, kwargs, g),
-)
+
+
+def array_from_scalar_or_array_jvp(g, ans, args, kwargs, _):
+    dtype = kwargs.get("dtype", args[0] if args else None)
+    if dtype is not None and not onp.issubdtype(onp.dtype(dtype), onp.inexact):
+        # a conversion to an integer or boolean type is piecewise constant
+        return vspace(ans).zeros()
+    return anp._array_from_scalar_or_array(args, kwargs, g)
+
+
+defjvp(anp._array_from_scalar_or_array, None, None, array_from_scalar_or_array_jvp)
 
 # ----- Functions that are constant w.r.t. continuous inputs -----
 defjvp(anp.nan_to_num, lambda g, ans, x: anp.where(anp.isfinite(x), g, 0.0))
